@@ -1146,3 +1146,12 @@ package genql
 // hands over a nil list)
 //@ func ComparisonExpr
 //@   ensures in-over-a-list-never-fails[C01,C02,C03,C04]: (expr.Operator == sqlparser.InOp || expr.Operator == sqlparser.NotInOp) && called(ValueOf) && callresult(Expr, 1, 1) == nil && callresult(ValueOf, 1, 1) == nil && callresult(Expr, 1, 2) == nil && callresult(ValueOf, 1, 2) == nil && typeis(callresult(Expr, 0, 2), []any) ==> err == nil
+
+// C19/C05: ORDER BY reads the key of both rows before it decides anything: a row whose key cannot be read fails the query
+// wherever it stands
+//@ func Compare
+//@   ensures both-keys-are-read-before-a-null-decides[C19,C05]: err == nil && len(orderBy) > 0 ==> callresult(ExecReader, 1, 1) == nil && callresult(ExecReader, 1, 2) == nil
+
+// C06/C07: a branch of a UNION is prepared on the document and with the options of the UNION
+//@ func unionBranch
+//@   at-call Prepare assert a-branch-runs-on-the-document-and-with-the-options-of-the-union[C06,C07,C20]: arg0 == query.data && arg1 == statement && arg2 == query.options
